@@ -125,10 +125,25 @@ func runVp8History(enable bool, warm int, calls []Tok) Outcome {
 		p.Payload(10, []byte{1})
 	}
 	pid := warm & 0x7FFF
+	// calls outside the property's quantifier (an empty frame, an MTU not larger than the descriptor) since the
+	// last frame that was judged: whether such a call uses up a picture id is the implementation's choice
+	skipped := 0
 	for ci, c := range calls {
 		l := tokList(c)
 		mtu, frame := uint16(tokInt(l[0])), tokBytes(l[1])
 		v, frags, intact, fresh, panicked := runPayloader(p, mtu, frame)
+		if skipped > 0 && enable && len(frags) > 0 {
+			d := &codecs.VP8Packet{}
+			if _, err := d.Unmarshal(frags[0]); err == nil && d.I == 1 {
+				for k := 0; k <= skipped; k++ {
+					if (pid+k)&0x7FFF == int(d.PictureID) {
+						pid = (pid + k) & 0x7FFF
+						break
+					}
+				}
+			}
+			skipped = 0
+		}
 		res = append(res, v)
 		if panicked {
 			o.Fail = fmt.Sprintf("call %d: panic", ci)
@@ -148,9 +163,8 @@ func runVp8History(enable bool, warm int, calls []Tok) Outcome {
 			}
 		}
 		if int(mtu) <= hs || len(frame) == 0 {
-			if len(frags) != 0 {
-				o.Fail = fmt.Sprintf("call %d: output for an MTU not larger than the descriptor or an empty frame", ci)
-			}
+			// outside "every frame and every MTU larger than the descriptor": nothing is demanded of the output
+			skipped++
 			continue
 		}
 		o.Nontrivial = o.Nontrivial || len(frags) >= 2 || enable
